@@ -1,7 +1,82 @@
 import Mustache.Basic.LineIO
+import Mustache.Model.Layout
+/-! `driver layout`: the chunk-layout model and the command-buffer allocator model on query lines.
+
+```
+layout <first|largest> <cap> <size:align,size:align,...|->   -> layout al=<chunkAlign> sz=<chunkSize> offs=<csv> sizes=<csv>
+                                                               (and makes this component list the current one)
+addr <i> <j>                                                  -> addr k=<chunk> r=<offset inside the chunk>
+treset                                                        -> ok          (fresh TemporalStorage)
+tset <target> <total> <base:capacity:free,...|->              -> ok          (an observed TemporalStorage state)
+talloc <new-chunk-address> <size> <align>                     -> talloc k=<chunk> o=<offset> cap=<chunk capacity>
+tclear                                                        -> ok
+```
+-/
 namespace Mustache.Driver.Layout
-/-- stub, replaced when the model lands -/
+open Mustache Mustache.Model.Layout
+
+structure St where
+  cap : Nat := 1
+  cs : List Comp := []
+  t : TState := TState.init
+
+def parseComps (s : String) : Option (List Comp) :=
+  if s = "-" || s = "" then some []
+  else (s.splitOn ",").mapM fun item =>
+    match item.splitOn ":" with
+    | [a, b] => do
+      let x ← a.toNat?
+      let y ← b.toNat?
+      pure (⟨x, y⟩ : Comp)
+    | _ => none
+
+/-- `base:capacity:free,...` oldest chunk first (the order of the C++ vector) -/
+def parseChunks (s : String) : Option (List TChunk) :=
+  if s = "-" || s = "" then some []
+  else (s.splitOn ",").mapM fun item =>
+    match item.splitOn ":" with
+    | [a, b, c] => do
+      let x ← a.toNat?
+      let y ← b.toNat?
+      let z ← c.toNat?
+      pure (⟨x, y, z⟩ : TChunk)
+    | _ => none
+
+def parseRule (s : String) : Option Rule :=
+  if s = "first" then some .first else if s = "largest" then some .largest else none
+
+def stepLine (st : St) (l : String) : IO St := do
+  match words l with
+  | ["layout", r, cap, comps] =>
+    match parseRule r, cap.toNat?, parseComps comps with
+    | some rule, some c, some cs =>
+      let L := layout rule c cs
+      IO.println s!"layout al={L.chunkAlign} sz={L.chunkSize} offs={showCsv (L.getters.map (·.offset))} sizes={showCsv (L.getters.map (·.size))}"
+      return { st with cap := c, cs := cs }
+    | _, _, _ => IO.println "bad-op"; return st
+  | ["addr", i, j] =>
+    match i.toNat?, j.toNat? with
+    | some i, some j =>
+      if st.cap = 0 then IO.println "undefined"
+      else IO.println s!"addr k={j / st.cap} r={rel st.cap st.cs i (j % st.cap)}"
+      return st
+    | _, _ => IO.println "bad-op"; return st
+  | ["treset"] => IO.println "ok"; return { st with t := TState.init }
+  | ["tset", target, total, chunks] =>
+    match target.toNat?, total.toNat?, parseChunks chunks with
+    | some tg, some tot, some cs => IO.println "ok"; return { st with t := ⟨cs.reverse, tg, tot⟩ }
+    | _, _, _ => IO.println "bad-op"; return st
+  | ["tclear"] => IO.println "ok"; return { st with t := clear st.t }
+  | ["talloc", nb, size, align] =>
+    match nb.toNat?, size.toNat?, align.toNat? with
+    | some nb, some size, some align =>
+      let (t', r) := allocate st.t nb size align
+      IO.println s!"talloc k={r.chunk} o={r.offset} cap={chunkCapacity t' r.chunk} b={chunkBase t' r.chunk}"
+      return { st with t := t' }
+    | _, _, _ => IO.println "bad-op"; return st
+  | _ => IO.println "bad-op"; return st
+
 def main (_args : List String) : IO UInt32 := do
-  IO.eprintln "driver: model Layout not built yet"
-  return 2
+  let _ ← foldStdin stepLine ({} : St)
+  return 0
 end Mustache.Driver.Layout
